@@ -48,7 +48,15 @@ type wframe struct {
 	phiBool map[*ssa.Phi]bool
 	phiVal  map[*ssa.Phi]ssa.Value
 	callRes map[*ssa.Call][]wres
+	// a closure body entered with concrete integer arguments (library
+	// functions that call back, e.g. sort.Search): the parameters' values and
+	// the closure whose bindings stand for the free variables
+	paramInt map[*ssa.Parameter]int64
+	closure  *ssa.MakeClosure
 }
+
+// Frame identifies an activation during a walk (for EvalIntF / RootF).
+type Frame = *wframe
 
 // wres is one result of an entered call.
 type wres struct {
@@ -117,6 +125,32 @@ func (val *Valuation) rootIn(f *wframe, v ssa.Value) (ssa.Value, *wframe) {
 				goto next
 			}
 			return v, f
+		case *ssa.FreeVar:
+			// the binding given where the closure was made (in the caller's frame)
+			if f.closure != nil && f.caller != nil {
+				for i, fv := range f.fn.FreeVars {
+					if fv == x && i < len(f.closure.Bindings) {
+						v, f = f.closure.Bindings[i], f.caller
+						goto next
+					}
+				}
+			}
+			return v, f
+		case *ssa.UnOp:
+			// a load from a write-once cell (a spilled parameter or local that a
+			// closure captures): the value stored into it
+			if x.Op == token.MUL {
+				cell, cf := val.rootIn(f, x.X)
+				if al, ok := cell.(*ssa.Alloc); ok && storesTo(al) == 1 {
+					for _, r := range *al.Referrers() {
+						if st, ok := r.(*ssa.Store); ok && st.Addr == ssa.Value(al) {
+							v, f = st.Val, cf
+							goto next
+						}
+					}
+				}
+			}
+			return v, f
 		case *ssa.Call:
 			if rs, ok := f.callRes[x]; ok && len(rs) == 1 && rs[0].val != nil {
 				v, f = rs[0].val, rs[0].fr
@@ -138,6 +172,20 @@ func (val *Valuation) rootIn(f *wframe, v ssa.Value) (ssa.Value, *wframe) {
 	}
 	return v, f
 }
+
+// RootF is Root that also tells the frame the rooted value belongs to.
+func (val *Valuation) RootF(v ssa.Value) (ssa.Value, Frame) { return val.rootIn(val.cur, v) }
+
+// SetFrame makes f the current frame (for Root / EvalInt) and returns the
+// previous one.
+func (val *Valuation) SetFrame(f Frame) Frame {
+	old := val.cur
+	val.cur = f
+	return old
+}
+
+// EvalIntF evaluates v in the given frame (as obtained from RootF).
+func (val *Valuation) EvalIntF(f Frame, v ssa.Value) (int64, bool) { return val.evalInt(f, v, nil, 0) }
 
 // EvalInt evaluates an integer value under the valuation (in the current
 // frame; the phi argument is kept for compatibility and may be nil).
@@ -183,11 +231,28 @@ func (val *Valuation) evalInt(f *wframe, v ssa.Value, phi map[*ssa.Phi]ssa.Value
 	case *ssa.Convert:
 		return val.evalInt(f, x.X, phi, depth+1)
 	case *ssa.Parameter:
+		if f != nil {
+			if n, ok := f.paramInt[x]; ok {
+				return n, true
+			}
+		}
 		if f != nil && f.caller != nil && x.Parent() == f.fn {
 			for i, p := range f.fn.Params {
 				if p == x && i < len(f.args) {
 					return val.evalInt(f.caller, f.args[i], nil, depth+1)
 				}
+			}
+		}
+	case *ssa.UnOp:
+		if x.Op == token.MUL && f != nil {
+			if r, rf := val.rootIn(f, x); r != ssa.Value(x) {
+				return val.evalInt(rf, r, nil, depth+1)
+			}
+		}
+	case *ssa.FreeVar:
+		if f != nil {
+			if r, rf := val.rootIn(f, x); r != ssa.Value(x) {
+				return val.evalInt(rf, r, nil, depth+1)
 			}
 		}
 	case *ssa.Phi:
@@ -239,6 +304,16 @@ func (val *Valuation) evalInt(f *wframe, v ssa.Value, phi map[*ssa.Phi]ssa.Value
 			if b != 0 {
 				return a / b, true
 			}
+		case token.SHR:
+			if a >= 0 && b >= 0 && b < 63 {
+				return a >> uint(b), true
+			}
+		case token.SHL:
+			if a >= 0 && b >= 0 && b < 32 && a < 1<<30 {
+				return a << uint(b), true
+			}
+		case token.XOR:
+			return a ^ b, true
 		}
 	}
 	return 0, false
@@ -371,7 +446,7 @@ func (val *Valuation) nilness(f *wframe, v ssa.Value) (isNil, known bool) {
 		if x.Value == nil {
 			return true, true
 		}
-	case *ssa.MakeInterface, *ssa.Alloc, *ssa.MakeSlice, *ssa.MakeMap, *ssa.MakeClosure, *ssa.Function:
+	case *ssa.MakeInterface, *ssa.Alloc, *ssa.MakeSlice, *ssa.MakeMap, *ssa.MakeClosure, *ssa.Function, *ssa.Slice:
 		return false, true
 	case *ssa.Call:
 		if g := x.Call.StaticCallee(); g != nil {
@@ -460,6 +535,39 @@ func (val *Valuation) walkFrame(f *wframe, start, from *ssa.BasicBlock, depth in
 			val.cur = f
 			if val.Visit != nil {
 				val.Visit(in)
+			}
+			// sort.Search(n, f): the smallest i in [0, n) with f(i), else n; f is
+			// followed with its parameter bound to each candidate in turn
+			if call, ok := in.(*ssa.Call); ok && depth < 6 {
+				if g := call.Call.StaticCallee(); g != nil && g.String() == "sort.Search" && len(call.Call.Args) == 2 {
+					if n, okN := val.evalInt(f, call.Call.Args[0], nil, 0); okN {
+						if mc, isMC := Unwrap(call.Call.Args[1]).(*ssa.MakeClosure); isMC {
+							if body, isFn := mc.Fn.(*ssa.Function); isFn && body.Blocks != nil && len(body.Params) == 1 {
+								found, decided := n, true
+								for i := int64(0); i < n; i++ {
+									sub := newFrame(body, f, nil)
+									sub.closure = mc
+									sub.paramInt = map[*ssa.Parameter]int64{body.Params[0]: i}
+									sr := val.walkFrame(sub, body.Blocks[0], nil, depth+1)
+									res.Instrs = append(res.Instrs, sr.Instrs...)
+									val.cur = f
+									b, okB := sr.RetBool[0]
+									if !sr.OK || !okB {
+										decided = false
+										break
+									}
+									if b {
+										found = i
+										break
+									}
+								}
+								if decided {
+									f.callRes[call] = []wres{{i: found, isInt: true}}
+								}
+							}
+						}
+					}
+				}
 			}
 			// follow a selected static callee
 			if call, ok := in.(*ssa.Call); ok && val.Enter != nil && depth < 6 {
